@@ -7,11 +7,12 @@ package sm3
 
 // ---- abstract view for callers (integer mode) ----
 // hs(h) names the byte stream absorbed by hash value h since its last Reset:
-// hs_empty() is the empty stream, hs_app(s, data, n) appends the n bytes of data;
+// hs_empty() is the empty stream, hsapp(s, data) appends the bytes of data;
 // digestbyte(s, i) is byte i of the SM3 digest of stream s.
 //@ ghostfield hs Int
 //@ uf hs_empty Int
 //@ uf hs_app Int
+//@ uf hs_appv Int
 //@ uf digestbyte Int 0 255
 
 //@ assume func (*sm3.SM3).Reset#int
@@ -20,7 +21,7 @@ package sm3
 
 //@ assume func (*sm3.SM3).Write#int
 //@ assigns *sm3, hs(sm3)
-//@ ensures app: hs(sm3) == hs_app(old(hs(sm3)), data, len(data))
+//@ ensures app: hs(sm3) == hsapp(old(hs(sm3)), data)
 //@ ensures n: n == len(data) && !nonnil(err)
 
 //@ assume func (*sm3.SM3).Sum#int
